@@ -1826,18 +1826,24 @@ func (m *repoManager) newVersion(parent dvid.UUID, note string, branchname strin
 	m.createMutex.Lock()
 	defer m.createMutex.Unlock()
 
+	// Read the parent under its read lock, but do not keep that lock: saving the repo at the
+	// end read-locks every node again, and a writer waiting for this node in between (a merge
+	// with the same parent) deadlocked both requests.
 	node.RLock()
-	defer node.RUnlock()
-	if !node.locked {
+	parentLocked := node.locked
+	parentBranch := node.branch
+	sisters := append([]dvid.VersionID(nil), node.children...)
+	node.RUnlock()
+	if !parentLocked {
 		return dvid.NilUUID, ErrBranchUnlockedNode
 	}
 
 	// check to make sure there are not already
 	// children with the same branch
-	if branchname == "" || branchname == node.branch {
+	if branchname == "" || branchname == parentBranch {
 		// check other children nodes
-		branchname = node.branch
-		for _, sister := range node.children {
+		branchname = parentBranch
+		for _, sister := range sisters {
 			// check if there is already a branch here
 			r.RLock()
 			r.dag.RLock()
@@ -1886,8 +1892,10 @@ func (m *repoManager) newVersion(parent dvid.UUID, note string, branchname strin
 	m.repoMutex.Unlock()
 	dvid.VerifPoint("yield:datastore.newVersion:before-append-child")
 
+	node.Lock()
 	node.children = append(node.children, childV)
 	node.updated = time.Now()
+	node.Unlock()
 
 	r.Lock()
 	r.dag.Lock()
